@@ -1181,16 +1181,24 @@ async fn judge_ended(side: &mut Side, on: &str, log: &Log) {
 async fn judge_subsequent(side: &mut Side, on: &str, log: &Log) {
     let Some(pc) = side.pc.clone() else { return };
     log.step(&format!("{}.<subsequent calls>", side.name));
-    let (p1, p2, p3) = (pc.clone(), pc.clone(), pc);
+    let (p1, p2, p3, p4) = (pc.clone(), pc.clone(), pc.clone(), pc);
     let ended = is_terminal(side.state());
-    let (a, b, c) = tokio::join!(
+    let (a, b, c, g) = tokio::join!(
         tokio::time::timeout(GRACE, async move { p1.send_data(0, b"after").await.is_ok() }),
         tokio::time::timeout(GRACE, async move { p2.create_offer().await.is_ok() }),
         // wait_for_connected() legitimately waits while the connection is still coming up: it is
         // only a *subsequent call that must return* once this side has ended
         tokio::time::timeout(GRACE, async move { if ended { p3.wait_for_connected().await.is_ok() } else { true } }),
+        // likewise gathering: a connection that has ended will never gather anything more, so a
+        // caller asking to wait for the end of gathering must be let go
+        tokio::time::timeout(GRACE, async move {
+            if ended {
+                p4.wait_for_gathering_complete().await;
+            }
+            true
+        }),
     );
-    for (name, r) in [("send_data", a), ("create_offer", b), ("wait_for_connected", c)] {
+    for (name, r) in [("send_data", a), ("create_offer", b), ("wait_for_connected", c), ("wait_for_gathering_complete", g)] {
         match r {
             Ok(ok) => log.note(format!("{} subsequent {name} -> {}", side.name, if ok { "Ok" } else { "Err" })),
             Err(_) => side.fail_once(log, on, &format!("hang:{name}(subsequent)"), format!("{}: {name}() called after the event did not return within {:?} (state {:?})", side.name, GRACE, side.state())),
